@@ -618,3 +618,15 @@ V('sh3b-no-nosp', ['C18'], SH, "                            nosp=cmdline.no_spec
 V('sh1-no-ienc', ['C09'], SH, "                            nosp=cmdline.no_specials, ienc=cmdline.encoding)\n\ndef skip_file", "                            nosp=cmdline.no_specials)\n\ndef skip_file", 'SH1')
 V('em7-inline-only', ['C03', 'C08'], MP, "            if not tok or type(tok) is defs.ParagraphToken:\n                buf.next()\n                out = (utils.latex_error('missing end of maths'", "            if not tok or (type(tok) is defs.ParagraphToken\n                                    and env_stop is None):\n                buf.next()\n                out = (utils.latex_error('missing end of maths'", 'EM7')
 V('uk7-empty-name', ['C19'], P, "            if name and not (math or name in self.unknowns):\n                self.unknowns.append(name)\n            return out", "            if not (math or name in self.unknowns):\n                self.unknowns.append(name)\n            return out", 'UK7')
+V('mt4b-more-punct', ['C10', 'C11'], PA, "        self.math_punctuation = ['.', ',', ';', ':']", "        self.math_punctuation = ['.', ',', ';', ':', '!', '?']", 'MT4b')
+V('at3-brackets', ['C11'], P, "            if tok.txt == '{':\n                lev += 1\n            elif tok.txt == '}':\n                lev -= 1\n            yield tok, lev",
+  "            if tok.txt in ('{', '['):\n                lev += 1\n            elif tok.txt in ('}', ']'):\n                lev -= 1\n            yield tok, lev", 'AT3')
+V('em8-arg-start', ['C01', 'C08'], S, "            return self.error_token('bad \\\\verb argument', latex, start)", "            return self.error_token('bad \\\\verb argument', latex, start_arg)", 'EM8')
+V('dt1c-conditional-blank', ['C06'], P, "                out.append(defs.ActionToken(tok.pos))\n                out.append(defs.SpaceToken(tok.pos, ' '))\n                buf.next()\n                self.parse_newline_option(buf, True)",
+  "                out.append(defs.ActionToken(tok.pos))\n                if not (out and type(out[-1]) is defs.SpaceToken):\n                    out.append(defs.SpaceToken(tok.pos, ' '))\n                buf.next()\n                self.parse_newline_option(buf, True)", 'DT1c')
+V('tx3-blank-shortcut', ['C06'], T2, "def tex2txt(latex, opts, multi_language=False, modify_parms=None):\n", "def tex2txt(latex, opts, multi_language=False, modify_parms=None):\n    if not latex.strip():\n        return {} if multi_language else ('', [])\n", 'TX3')
+V('ix17-empty-text', ['C07'], P, "        if not args or not args[0].txt:\n            c = ''", "        if not args:\n            c = ''", 'IX17')
+V('pd10-title-tokens', ['C01', 'C04'], 'yalafi/handlers.py', "        out = [defs.TextToken(pos, name, pos_fix=True)]\n        if args[0]:", "        out = name.copy()\n        if args[0]:", [])
+V('un1-order', ['C20'], GX, "            cont_length = len(cont_text[cont_offset:cont_offset+cont_length]\n                                    .encode())\n            cont_offset = len(cont_text[:cont_offset].encode())",
+  "            cont_offset = len(cont_text[:cont_offset].encode())\n            cont_length = len(cont_text[cont_offset:cont_offset+cont_length]\n                                    .encode())", 'UN1')
+V('lc4-raw-code', ['C20', 'C12'], U, "    lang = parms.check_parser_lang(sec.lang)\n    repl = parms.parser_lang_settings[lang].lang_change_repl", "    repl = parms.parser_lang_settings.get(sec.lang, parms.lang_context).lang_change_repl", 'LC4')
